@@ -3,7 +3,7 @@ from .. import routing as R
 from .. import vfcore as V
 
 PROP = "C03"
-TARGETS = ["theories/Routing/Witness.vo", "theories/Routing/Basic.vo"]
+TARGETS = ["theories/Routing/Witness.vo", "theories/Routing/Basic.vo", "theories/Routing/Mono.vo"]
 
 
 def nontrivial(h, ev):
@@ -28,7 +28,8 @@ replay = R.replay
 
 MANIFEST = {
     "technique": "Coq lemma on the aggregation step (monotone under the receiver invariant, clamped to the source watermark) + correspondence and monotone/bounded/completion monitor in virtual time",
-    "text": "C03_ack_monotone_bounded (coq/properties/C03.v) proves that every value the receiver sends upstream is >= the previous one (under the receiver invariant) and <= the last source high watermark; "
+    "text": "C03_acks_monotone_bounded_all_runs proves for every fault-free action sequence (every interleaving, any number of sources and targets) that each acknowledgement sent to a source is >= "
+            "the previous one and <= the source's last high watermark (a consequence of the routing invariant). C03_ack_monotone_bounded (coq/properties/C03.v) proves that every value the receiver sends upstream is >= the previous one (under the receiver invariant) and <= the last source high watermark; "
             "the model is tied to the code as for C01. Eventual completeness is checked as progress under the canonical fair schedule: histories end with completion rounds in virtual time and the "
             "source must have received exactly its final high watermark, on the real code and on the model.",
     "note": "Liveness is decided under the canonical schedule only (not arbitrary fairness). Trusted as C01.",
